@@ -1200,6 +1200,12 @@ func rulePNClose(p *Prog, r *Reporter) {
 				}
 				bi, isB := c.Common().Value.(*ssa.Builtin)
 				if !isB || bi.Name() != "close" {
+					// a deferred function literal / helper that closes a channel of this function
+					if d, isD := in.(*ssa.Defer); isD {
+						for _, ch := range deferredCloses(p, d) {
+							closes = append(closes, cl{in, true, ch})
+						}
+					}
 					continue
 				}
 				_, def := in.(*ssa.Defer)
@@ -1613,4 +1619,51 @@ func rulePNSlice(p *Prog, r *Reporter) {
 			}
 		}
 	}
+}
+
+// deferredCloses: descriptions (in the deferring function's terms) of the channels closed by the function deferred by d.
+func deferredCloses(p *Prog, d *ssa.Defer) []string {
+	var callee *ssa.Function
+	var bindings []ssa.Value
+	switch v := d.Call.Value.(type) {
+	case *ssa.MakeClosure:
+		callee, _ = v.Fn.(*ssa.Function)
+		bindings = v.Bindings
+	case *ssa.Function:
+		callee = v
+	}
+	if callee == nil {
+		return nil
+	}
+	var out []string
+	for _, c := range callsIn(callee) {
+		bi, isB := c.Common().Value.(*ssa.Builtin)
+		if !isB || bi.Name() != "close" || len(c.Common().Args) != 1 {
+			continue
+		}
+		x := unwrap(c.Common().Args[0])
+		if pr, ok := x.(*ssa.Parameter); ok {
+			for i, q := range callee.Params {
+				if q == pr && i < len(d.Call.Args) {
+					out = append(out, p.D(unwrap(d.Call.Args[i])))
+				}
+			}
+			continue
+		}
+		if u, ok := x.(*ssa.UnOp); ok && u.Op == token.MUL {
+			if fv, isFV := u.X.(*ssa.FreeVar); isFV {
+				for i, q := range callee.FreeVars {
+					if q != fv || i >= len(bindings) {
+						continue
+					}
+					if cell, isA := bindings[i].(*ssa.Alloc); isA {
+						if sts := storesInto(cell); len(sts) == 1 {
+							out = append(out, p.D(unwrap(sts[0].Val)))
+						}
+					}
+				}
+			}
+		}
+	}
+	return out
 }
